@@ -13,8 +13,7 @@ import sys
 from . import _common
 
 AREA = 'blockcipher'
-MODULES = ['_raw_aes', '_raw_aesni', '_raw_des', '_raw_des3', '_raw_blowfish', '_raw_eksblowfish', '_raw_cast', '_raw_arc2', '_raw_ecb',
-           '_ARC4', '_chacha20', '_Salsa20', '_cpuid_c', '_strxor']
+MODULES = None      # rebuild every extension module of setup.py (about 3 s): nothing stale can be reached indirectly
 
 TARGET = {'AES': 'src/AES.c:AES_encrypt/AES_decrypt', 'DES': 'src/DES.c (libtom/tomcrypt_des.c)', 'DES3': 'src/DES3.c (libtom/tomcrypt_des.c)',
           'Blowfish': 'src/blowfish.c', 'CAST': 'src/CAST.c', 'ARC2': 'src/ARC2.c', 'ARC4': 'src/ARC4.c', 'ChaCha20': 'src/chacha20.c:chacha20_core',
